@@ -26,11 +26,14 @@ prop("C02", [
    nontrivial_classes=["history-with-out-of-order-buffering", "history-straddling-seam", "history-with-late-arrival"])
 
 prop("C10", [
-    S(REASM, "^TestC10Regress$", kind="plain"),
+    S(REASM, "^TestC10(Timed)?Regress$", kind="plain"),
     S(REASM, "^TestC10$", q=20000, t=200000, shards=16),
-], REASM_ASSUME + ["timeout is 1h so that expiry cannot be a cause (as the property's quantifier says)",
+    S(REASM, "^TestC10Timed$", q=3000, t=40000, shards=16),
+], REASM_ASSUME + ["TestC10: timeout is 1h or more so that expiry cannot be a cause (as the property's quantifier says)",
+                   "TestC10Timed: finite timeouts and real sleeps; only 'the timeout had definitely not elapsed' is asserted (harness clock read around every call)",
                    "sequence numbers of a history lie in one 2^24 window"],
-   nontrivial_classes=["history-with-overflow-eviction", "history-with-complete-event-waiting"])
+   nontrivial_classes=["history-with-overflow-eviction", "history-with-complete-event-waiting", "timed-history-with-idle-period-before-push",
+                       "timed-history-with-delivery-after-possible-expiry"])
 
 prop("C19", [
     S(REASM, "^TestC19Regress$", kind="plain"),
@@ -144,7 +147,7 @@ prop("C17", [
 ], ["a synchronous request is never issued while ACKs are pending (the property does not say what happens)",
     "the return value of Close calls after the first is not asserted"],
    nontrivial_classes=["history-with-error-among-acks", "history-with-2-nowait-and-2-waits", "history-with-repeated-close",
-                       "history-close-after-setpid", "history-with-getrules-then-traffic", "concurrent-close", "history-close-with-failing-send"])
+                       "history-close-after-setpid", "history-waitacks-after-close-with-pending", "history-with-getrules-then-traffic", "concurrent-close", "history-close-with-failing-send"])
 
 prop("C18", [
     S(CLIENT, "^TestC18Regress$", kind="plain"),
